@@ -9,7 +9,7 @@ try:
     commits = subprocess.check_output(['git', '-C', '/repo', 'log', '--format=%h %s', '2f5e9a0..HEAD']).decode().splitlines()
 except Exception:
     commits = []
-hook_commits = [c.split()[0] for c in commits if c.split(' ', 1)[1].startswith('verif-hook')]
+hook_commits = [c.split()[0] for c in commits if c.split(' ', 1)[1].startswith(('verif-hook', 'verif hook'))]
 checks = []
 for i in ids:
     if i not in PROPS or not PROPS[i].get('claimed', True):
